@@ -247,6 +247,17 @@ Definition nrn_load (c : Neuron.cls) (d : sdict nval) (t : nstate) : nstate :=
 Definition nrn_inv (c : Neuron.cls) (s : nstate) : Prop :=
   Neuron.has_adaptation c = false -> Forall (fun col => ad col = []) (cols s).
 
+(* Operations that exist for the class: C03's model lets OpSetAdapt / OpLoad overwrite the adaptation vector of ANY class;
+   a class without adaptation has no such attribute / state-dict entry, so for it these operations may only carry empty
+   rows (OpAddAdapt on an empty vector is a no-op in the model already). *)
+Definition nrn_op_ok (c : Neuron.cls) (o : Neuron.op NM) : Prop :=
+  Neuron.has_adaptation c = false ->
+  match o with
+  | Neuron.OpSetAdapt a => Forall (fun row => row = []) a
+  | Neuron.OpLoad _ _ a => Forall (fun row => row = []) a
+  | _ => True
+  end.
+
 (* same class and hyperparameters (they are parameters of the step function), same mode, same group size *)
 Definition nrn_compat (c : Neuron.cls) (s t : nstate) : Prop :=
   Neuron.training NM t = Neuron.training NM s /\ List.length (cols t) = List.length (cols s) /\ nrn_inv c t.
